@@ -245,6 +245,31 @@ where
                     }
                     b
                 },
+                Call::PartsTruncate(f, n) => {
+                    // (the small-string type is only nameable with the `smartstring` feature)
+                    macro_rules! cut {
+                        ($s:expr) => {{
+                            let s = $s;
+                            let mut n = (*n as usize).min(s.len());
+                            while !s.is_char_boundary(n) {
+                                n -= 1;
+                            }
+                            s.truncate(n);
+                        }};
+                    }
+                    match f {
+                        0 => cut!(&mut b.parts.namespace),
+                        1 => cut!(&mut b.parts.name),
+                        2 => cut!(&mut b.parts.version),
+                        3 => cut!(&mut b.parts.subpath),
+                        _ => {
+                            for (_, v) in b.parts.qualifiers.iter_mut() {
+                                cut!(v);
+                            }
+                        },
+                    }
+                    b
+                },
                 Call::PartsQualOrInsert(k, v) => {
                     if let Ok(e) = b.parts.qualifiers.entry(k.as_str()) {
                         e.or_insert(v.as_str());
@@ -395,6 +420,20 @@ fn main() {
         {
             inputs += 1;
             tsink.line("typed-build", 50_000_000_000 + i, build_line::<purl::PackageType>(&ht, &mk_typed));
+        }
+        let _ = &ht;
+    }
+    // (e) observe / take apart / change one thing (also: shorten a long text in place) / build
+    let mut r = Rng::stream(seed, 0, "c17.stale");
+    for i in 0..(if quick { 40_000 } else { 1_500_000 }) {
+        let h = hist::stale_hist(&mut r, false);
+        inputs += 1;
+        sink.line("generic-build", 60_000_000_000 + i, build_line::<String>(&h, &mk_string));
+        let ht = hist::stale_hist(&mut r, true);
+        #[cfg(feature = "pt")]
+        {
+            inputs += 1;
+            tsink.line("typed-build", 70_000_000_000 + i, build_line::<purl::PackageType>(&ht, &mk_typed));
         }
         let _ = &ht;
     }
